@@ -9,7 +9,7 @@ PROPERTIES_MODULE = "Properties.C07"
 COQ_TARGETS = ["Properties/C07.vo", "Model/Dispatch.vo"]
 THEOREMS = ["C07_no_order_assertion", "C07_bounds_ordered", "C07_bounds_gap", "C07_bounds_contain_J", "C07_pb_collision",
             "C07_increment_is_renyi_spacing", "C07_register_threshold", "C07_register_antitone", "C07_estimator_is_match_fraction",
-            "C07_source_bounds_are_the_proved_bounds"]
+            "C07_source_bounds_are_the_proved_bounds", "C07_source_register_law_is_the_proved_law"]
 AXIOMS_ALLOWED = setflib.REAL_AXIOMS
 TRANSLATORS = [("setsketch-formulas", setflib.translate), ("setsketch-register-law", setflib.translate_setlaw),
                ("setsketch-formulas-from-source", setflib.translate_src("set")), estlib.translator("EstIdx")]
